@@ -124,6 +124,10 @@ def run(ck):
     special += ['c1cc2cc3ccc(cc4nc(cc5ccc(cc1n2)[nH]5)C=C4)[nH]3', 'C1=Cc2cc3ccc(cc4ccc(cc5nc(cc1n2)C=C5)[nH]4)[nH]3', 'c1ccccccccccccc1', 'c1ccccccccccccccccc1', 'c1c[cH+]1',
                 '[cH-]1cccccccc1', 'c1cc2ccc1CCc1ccc(CC2)cc1', 'c1ccc2ccccccc2c1', 'c1ccn2cccc2c1', 'n12cccc1cccc2', 'c1ccn2ccnc2c1', 'c1cc2ccn(n2)c1'.replace('c1cc2ccn(n2)c1', 'c1ccn2nccc2c1'),
                 'O=c1cccc2ccccn12', 'c1csc2nccn12', 'c1cnc2cccnn12']
+    # pi-complexes: ring atoms with a coordinate bond to the metal, with and without a substituent on the coordinated carbon; poly-aza
+    # fused rings in several spellings (the pyrrole-type / pyridine-type choice depends on the visiting order)
+    special += ['[cH-]1(~[Fe+2]~[cH-]2cccc2)cccc1', 'C[c-]1(~[Fe+2]~[c-]2(C)cccc2)cccc1', 'Cc1(~[Cr])ccccc1', 'CC[c-]1(~[Fe+2]~[cH-]2cccc2)cccc1', 'Cc1(~[Ru])ccc(C)cc1',
+                'c1(~[Cr])ccccc1', 'n1c2ncncc2ncc1', 'n1cnc2nccnc2c1', 'c12ccc3ncccc3c1cccn2', 'c1cnc2c(c1)ccc1cccnc12', 'c1cnc2ncncc2n1', 'n1ccnc2nccnc12', 'c1ncc2nccnc2n1', 'c1cc2nccnc2nn1']
     must = set(special)
     cases = [{'key': s, 'smi': s, 'rs': rnd.randrange(1 << 30), 'must': s in must} for s in sel + special + doc_pairs() + ring_zoo(rnd, 150 if ck.quick else 4000)]
     seen, uc = set(), []
